@@ -9,14 +9,12 @@ Oracle 3: text -> asFea -> text is a fixed point after one iteration and compile
 """
 
 import copy
-import glob
 import io
-import json
 import os
 import random
 
 from vf import gen_fea
-from vf.runner import Acc, CaseTimeout, HarnessError, TESTS, fingerprint, subseed, time_limit
+from vf.runner import Acc, CaseTimeout, HarnessError, TESTS, subseed, time_limit
 
 ID = "C11"
 LEVEL = "exploration"
@@ -262,15 +260,19 @@ def check_program(acc, program, runs_seed, nruns=8, only=None):
 
     text = gen_fea.print_program(program)
     pcase = dict(kind="program", program=program, runs_seed=runs_seed)
-    try:
-        with time_limit(60):
-            data, font = compile_text(text)
-    except CaseTimeout:
-        acc.inconclusive += 1
-        return
-    except Exception as e:
-        acc.fail_exc("compile-generated-program", e, pcase, extra=" | " + text[:300].replace("\n", " / "))
-        return
+    for attempt in (1, 2, 3):
+        # compiling takes ~10 ms; the limit only guards against a hang, and a stalled machine gets another try
+        try:
+            with time_limit(120):
+                data, font = compile_text(text)
+            break
+        except CaseTimeout:
+            if attempt == 3:
+                acc.inconclusive += 1
+                return
+        except Exception as e:
+            acc.fail_exc("compile-generated-program", e, pcase, extra=" | " + text[:300].replace("\n", " / "))
+            return
     if only is None:
         for lab in compiled_shape_labels(font):
             acc.label(lab)
